@@ -88,16 +88,16 @@ func proveValid(t *tape.Tape, s *gtier.System) (groth16.Proof, *big.Int, error) 
 
 type C10 struct {
 	base
-	g  gsys
-	sp *gtier.ShortPoints
-	holder *prover.Proof // the re-used decode target of the current run (history)
-	bd []bn254.G1Affine // curve points with x at the edges of the base field's range (gtier.BoundaryG1)
+	g      gsys
+	sp     *gtier.ShortPoints
+	holder *prover.Proof    // the re-used decode target of the current run (history)
+	bd     []bn254.G1Affine // curve points with x at the edges of the base field's range (gtier.BoundaryG1)
 }
 
 func init() { register(&C10{base: base{id: "C10", level: "exploration"}}) }
 
 func (c *C10) Rule() string {
-	return "one run = either one real Groth16 proof of a fresh valid batch (prover randomness drawn from the tape through the seeded crypto/rand seam) or 40 forged proofs assembled from small multiples of the curve generators searched for coordinates with leading zero bytes (incl. (1,2)), a quarter of them with A or C replaced by a genuine curve point whose x lies at an edge of the base field's range (just below q, in [r, q), around r, around 2^253); each proof is encoded by the repository, decoded by our own decoder (compared coordinate by coordinate with the gnark proof struct in EVM order), decoded by the repository (compared with the original) and verified before and after; evaluations = proofs round-tripped; non-trivial = proof with at least one coordinate shorter than 32 bytes; distinct = pattern of which of the 8 coordinates are short and by how many bytes; every fifth run is a World L run: 2..5 caller tasks encode/decode their own forged proofs interleaved by the tape at every statement of the instrumented codec"
+	return "one run = either one real Groth16 proof of a fresh valid batch (prover randomness drawn from the tape through the seeded crypto/rand seam) or 40 forged proofs assembled from small multiples of the curve generators searched for coordinates with leading zero bytes (incl. (1,2)), a quarter of them with A or C replaced by a genuine curve point whose x lies at an edge of the base field's range (just below q, in [r, q), around r, around 2^253); each proof is encoded by the repository, decoded by our own decoder (compared coordinate by coordinate with the gnark proof struct in EVM order), decoded by the repository (compared with the original) and verified before and after; evaluations = proofs round-tripped; non-trivial = proof with at least one coordinate shorter than 32 bytes; distinct = pattern of which of the 8 coordinates are short and by how many bytes; every fifth run is a World L run: 2..5 caller tasks encode/decode their own forged proofs interleaved by the tape at every statement of the instrumented codec; every forged proof is also decoded into one re-used prover.Proof value of the run, which is then encoded again (history on one value)"
 }
 func (c *C10) Assumptions() []string {
 	return []string{"EVM order A.x A.y B.x1 B.x0 B.y1 B.y0 C.x C.y and 0x-hex rendering are taken from the property text", "ground-truth coordinates are read by reflection from gnark's internal BN254 proof struct"}
